@@ -32,6 +32,21 @@ def run(ctx):
                 else: r.call(m + extra, L)                           # prefix of L bits of a (possibly longer) byte string
             traces.append(r.trace(dict(kind='oneshot', L=L)))
             ctx.mark((name, L % Bb, L // Bb, L % 8))
+        # digests that start with zero bytes (inputs SELECTED with hashlib where it has the algorithm; TLC still judges)
+        import hashlib
+        hn = {'md5': 'md5', 'sha1': 'sha1', 'sha224': 'sha224', 'sha256': 'sha256', 'sha384': 'sha384', 'sha512': 'sha512', 'sha512_224': 'sha512_224', 'sha512_256': 'sha512_256'}.get(name)
+        if hn:
+            found = 0; q = 0
+            while found < (4 if big else 2) and q < 200000:
+                m = b'lz-%d-%d' % (ctx.seed, q); q += 1
+                dg = hashlib.new(hn, m).digest()
+                if dg[0] == 0 or dg[-1] == 0:
+                    r = H.Rec(name); r.call(m); traces.append(r.trace(dict(kind='zero-edge digest'))); found += 1; ctx.mark((name, 'lz', q))
+        # several one-shot calls on ONE object (the chaining value must be re-initialised each time)
+        r = H.Rec(name)
+        ma, mb = H.content(rnd, 70, 0), H.content(rnd, 5, 0)
+        for m in (ma, mb, ma, b'', mb): r.call(m)
+        traces.append(r.trace(dict(kind='reuse'))); ctx.mark((name, 'reuse'))
         # bit length beyond the data: must raise
         r = H.Rec(name)
         for n, over in ((0, 1), (1, 1), (5, 7), (Bb // 8, 1), (Bb // 8 + 3, 8 * Bb), (2, 1 << 20)):
